@@ -309,6 +309,13 @@ func runSponge(op string, in M) M {
 				wg.Add(1)
 				go func(g int) {
 					defer wg.Done()
+					defer func() { // a panic of the code under test in this goroutine is an answer, not the end of the driver
+						if r := recover(); r != nil {
+							mu.Lock()
+							msg = fmt.Sprint("verif: panic in an instance used concurrently with other instances: ", r)
+							mu.Unlock()
+						}
+					}()
 					for rep := 0; rep < 4 || time.Now().Before(deadline); rep++ {
 						if got := history(int64(g)); got != want[g] {
 							mu.Lock()
@@ -563,6 +570,25 @@ func genSponge(do func(string, M)) {
 			do("curl.absorb", M{"id": 5, "lanes": [][]int{{1 + r.Intn(nkeys)}, {1 + r.Intn(nkeys)}}, "nblocks": 1, "bad": ""})
 			do("curl.squeeze", M{"id": 5, "nlanes": 2, "nblocks": 1, "bad": "", "audit": []int{tr}})
 			do("curl.env", M{"scramble": false})
+		}
+		// squeezing zero blocks is squeezing nothing: the sponge goes on absorbing / the next block is the first one
+		{
+			k1, k2 := 1+r.Intn(nkeys), 1+r.Intn(nkeys)
+			au := []int{}
+			if tr < 2 {
+				au = []int{tr}
+			}
+			do("curl.new", M{"id": 4})
+			do("curl.absorb", M{"id": 4, "lanes": [][]int{{k1}, {k2}}, "nblocks": 1, "bad": ""})
+			do("curl.squeeze", M{"id": 4, "nlanes": 2, "nblocks": 0, "bad": "", "audit": []int{}})
+			do("curl.absorb", M{"id": 4, "lanes": [][]int{{k2}, {k1}}, "nblocks": 1, "bad": ""})
+			do("curl.squeeze", M{"id": 4, "nlanes": 2, "nblocks": 1, "bad": "", "audit": au})
+			do("curl.new", M{"id": 3})
+			do("curl.absorb", M{"id": 3, "lanes": [][]int{{k1}, {k2}, {k1}}, "nblocks": 1, "bad": ""})
+			do("curl.squeeze", M{"id": 3, "nlanes": 3, "nblocks": 0, "bad": "", "audit": []int{}})
+			do("curl.squeeze", M{"id": 3, "nlanes": 3, "nblocks": 1, "bad": "", "audit": au})
+			do("curl.squeeze", M{"id": 3, "nlanes": 1, "nblocks": 0, "bad": "", "audit": []int{}})
+			do("curl.squeeze", M{"id": 3, "nlanes": 3, "nblocks": 1, "bad": "", "audit": []int{}})
 		}
 		// a fresh instance that is squeezed before anything was absorbed, reset, and used again
 		do("curl.new", M{"id": 7})
